@@ -658,7 +658,7 @@ func c07R14(ic *IC, r *Report, rule string) {
 		}
 		return true
 	})
-	n := 0
+	n, nconv := 0, 0
 	for _, fl := range (&c02ctx{ic: ic}).closuresOf(fi) {
 		ast.Inspect(fl.Body, func(m ast.Node) bool {
 			c, ok := m.(*ast.CallExpr)
@@ -671,6 +671,15 @@ func c07R14(ic *IC, r *Report, rule string) {
 				return true
 			}
 			if inner, ok := unparen(c.Args[0]).(*ast.CallExpr); ok && isCallTo(info, inner, "reflect.Append", "reflect.AppendSlice") {
+				// converse: under the ellipsis the callee receives the caller's slice itself (it
+				// shares the backing array: s[0] = x in f is seen by the caller of f(s...))
+				for _, g := range pathGuards(fl.Body, c) {
+					if g.want && mentionsFlag(g.cond) {
+						nconv++
+						r.Fail(rule, fmt.Sprintf("call/variadic-vector-copied-under-the-ellipsis#%d", nconv), ic.pos(c.Pos()),
+							"for a call written f(s...) the generator of calls builds the variadic parameter with "+types.ExprString(c.Args[0])+" instead of passing the operand itself: the callee works on a copy, so its writes to the elements (and its view of the caller's later writes) differ from compiled Go, where f(s...) passes s")
+					}
+				}
 				return true
 			}
 			n++
@@ -685,7 +694,7 @@ func c07R14(ic *IC, r *Report, rule string) {
 			return true
 		})
 	}
-	if n == 0 {
+	if n == 0 && nconv == 0 {
 		r.Errorf("%s: no store of a whole operand into the variadic vector found in the generator of calls", rule)
 	}
 }
